@@ -230,7 +230,7 @@ func (a *Agent) hooks(proc *process.Process, sym *symbol.Symbol, in *port.InPort
 
 		var frame *Frame
 		for _, f := range a.frames[proc.ID()] {
-			if f.Symbol == sym && (f.InPort == in || f.OutPort == out) && f.InPck == nil {
+			if f.Symbol == sym && f.InPort == in && f.OutPort == out && f.InPck == nil {
 				f.InPck = pck
 				f.InTime = time.Now()
 				frame = f
@@ -261,7 +261,7 @@ func (a *Agent) hooks(proc *process.Process, sym *symbol.Symbol, in *port.InPort
 
 		var frame *Frame
 		for _, f := range a.frames[proc.ID()] {
-			if f.Symbol == sym && (f.InPort == in || f.OutPort == out) && f.OutPck == nil {
+			if f.Symbol == sym && f.InPort == in && f.OutPort == out && f.OutPck == nil {
 				f.OutPck = pck
 				f.OutTime = time.Now()
 				frame = f
